@@ -12,18 +12,19 @@ def committed_lib(chk):
     path = os.path.join(specmodel.REPO, "packages", "rust", "lsprotocol", "src", "lib.rs")
     S = specmodel.Spec(python_customizations=False)
     try:
-        items = rustparse.parse(open(path, encoding="utf-8").read())
+        text = open(path, encoding="utf-8").read()
+        items = rustparse.parse(text)
     except rustparse.ParseError as e:
         chk.harness_error("committed lib.rs outside the reader's grammar: %s" % e)
         return
-    a, notes = rustimage.spec_rows(S)
-    b = rustimage.impl_rows(S, items)
+    a, notes = rustimage.spec_rows(S, with_serde_arms=True)
+    b = rustimage.impl_rows(S, items, text)
     rustimage.resolve_literals(S, a, b, items)
     for k, w, g in c09.relation_query(chk, "rust_committed_lib_rs", a, b)[:12]:
         code = (
             "import os\nfrom vlib import rustimage, rustparse, specmodel\n"
-            "def replay():\n    S = specmodel.Spec(python_customizations=False)\n    items = rustparse.parse(open(os.path.join(specmodel.REPO, 'packages/rust/lsprotocol/src/lib.rs'), encoding='utf-8').read())\n"
-            "    a, _ = rustimage.spec_rows(S); b = rustimage.impl_rows(S, items); rustimage.resolve_literals(S, a, b, items)\n    k = %r\n"
+            "def replay():\n    S = specmodel.Spec(python_customizations=False)\n    text = open(os.path.join(specmodel.REPO, 'packages/rust/lsprotocol/src/lib.rs'), encoding='utf-8').read(); items = rustparse.parse(text)\n"
+            "    a, _ = rustimage.spec_rows(S, with_serde_arms=True); b = rustimage.impl_rows(S, items, text); rustimage.resolve_literals(S, a, b, items)\n    k = %r\n"
             "    return (a.get(k, '<absent>') == b.get(k, '<absent>'), 'lib.rs: %%r is %%r, the metamodel requires %%r' %% (k, b.get(k, '<absent>'), a.get(k, '<absent>')))\n"
         ) % (k,)
         chk.violation("committed lib.rs: %s of %s.%s is %r, the metamodel requires %r" % (k[3], k[1], k[2], g, w), {"kind": "python", "code": code, "site": "lib.rs %r" % (k,)})
